@@ -41,7 +41,9 @@ RULE = (
     "random acyclic data graphs over 2..N term nodes (function nodes, and macros wrapping the same function with the "
     "macro or its inner node handed to the executor) inserted in random (non-topological) order, 3 input slots "
     "each with 0..2 connections, random executor assignment, random completion schedule at every schedule point "
-    "(idle sleep + after every emission); thorough adds exhaustive schedule DFS for small graphs. Non-trivial = "
+    "(idle sleep + after every emission); thorough adds exhaustive schedule DFS for small graphs; the same graphs built "
+    "inside a MACRO by a graph creator whose three arguments feed one input / several children / several inputs of one "
+    "child, with children replaced (replace_child) before the run or between a failed run and its re-run. Non-trivial = "
     ">= 3 nodes and >= 1 edge; distinct by canonical case"
 )
 TRUSTED = [
@@ -66,6 +68,8 @@ def build(case):
 
     from . import nodes
 
+    if case.get("host") == "macro":
+        return build_host(case)
     wf = Workflow("w", autoload=None)
     ns = {}
     for i in case["order"]:
@@ -80,16 +84,75 @@ def build(case):
     return wf, ns
 
 
+def ui_index(case):
+    """macro host: the arguments whose interface node must survive (two or more connections) → model node index"""
+    uses = [0, 0, 0]
+    for sl in case.get("argslots", {}).values():
+        for k in sl:
+            if k is not None:
+                uses[k] += 1
+    keep = [k for k in range(3) if uses[k] >= 2]
+    return {k: case["n"] + r for r, k in enumerate(keep)}, uses
+
+
+def build_host(case):
+    """the hosting composite is a MACRO (wired once, at instantiation); returns (macro, nodes by model index)"""
+    from . import nodes
+
+    vals = case.get("argvals", ["A0", "A1", "A2"])
+    m, ns = nodes.host_macro(case, label="w", **dict(zip(nodes.HOST_ARGS, vals)))
+    idx, _uses = ui_index(case)
+    extra = case["n"] + 3
+    for k, name in enumerate(nodes.HOST_ARGS):
+        if name in m.children:
+            # an interface node the specification does not expect gets an index outside the model's graph
+            ns[idx.get(k, extra + k)] = m.children[name]
+    return m, ns
+
+
+def _kids(node):
+    """children of a composite, {} for anything else (never `getattr` on a single-output node: it injects a node)"""
+    from pyiron_workflow.nodes.composite import Composite
+
+    return node.children if isinstance(node, Composite) else {}
+
+
+def _labmap(case, ns):
+    return {n.label: i for i, n in ns.items()}
+
+
+def _outch(node):
+    return node.outputs.o if "o" in node.outputs.labels else node.channel
+
+
+def host_edges(case):
+    """the data graph the model sees for a macro host: children 0..n-1 plus the surviving interface nodes"""
+    idx, _uses = ui_index(case)
+    slots = {}
+    for i in range(case["n"]):
+        sl = []
+        for s in range(3):
+            k = case["argslots"][str(i)][s]
+            sl.append([idx[k]] if (k is not None and k in idx) else list(case["slots"][str(i)][s]))
+        slots[str(i)] = sl
+    for k, j in idx.items():
+        slots[str(j)] = [[], [], []]
+    return case["n"] + len(idx), slots
+
+
 def reference(case, epoch=0):
     """plain python composition: most recently connected upstream per slot, default 'd'"""
     memo = {}
     tag = f"@{epoch}" if epoch else ""
+    argslots = case.get("argslots")
+    vals = case.get("argvals", ["A0", "A1", "A2"])
 
     def val(i):
         if i not in memo:
             args = []
-            for ups in case["slots"][str(i)]:
-                args.append(val(ups[-1]) if ups else "d")
+            for s, ups in enumerate(case["slots"][str(i)]):
+                k = argslots[str(i)][s] if argslots else None
+                args.append(repr(vals[k]) if k is not None else (val(ups[-1]) if ups else "d"))
             memo[i] = f"f{i}{tag}(" + ",".join(args) + ")"
         return memo[i]
 
@@ -135,6 +198,11 @@ def gen_cases(rng, tier):
         yield {"n": n, "order": order, "slots": slots, "exec": ex, "fails": [], "mode": "ctl", "macro": macro,
                "inner_exec": [i for i in macro if i not in ex and rng.random() < 0.5],
                "choices": [rng.randint(0, 4) for _ in range(4 * n)]}
+    # the hosting composite is a MACRO (wired once at instantiation): arguments feed the children (one argument to
+    # several children, or to several inputs of one child, or to a single input), children may be macros themselves,
+    # children may be replaced by new nodes before the run, or between a failed run and the re-run
+    for _ in range(120 if tier == "quick" else 1200):
+        yield gen_host_case(rng, tier)
     # re-runs: run one with an injected fault, failure cleared and cause removed, run two under another schedule
     for _ in range(80 if tier == "quick" else 800):
         n = rng.randint(3, 6 if tier == "quick" else 10)
@@ -167,7 +235,64 @@ def gen_cases(rng, tier):
             yield {**base, "choices": [], "dfs": 150}
 
 
+def gen_host_case(rng, tier):
+    n = rng.randint(2, 6 if tier == "quick" else 9)
+    order, slots = gen_dag(rng, n, 0.55)
+    argslots = {}
+    for i in range(n):
+        row = []
+        for s in range(3):
+            k = None
+            if not slots[str(i)][s] and rng.random() < 0.45:
+                k = rng.choice([0, 0, 1, 2])  # skewed: argument 0 tends to be used several times
+            row.append(k)
+        argslots[str(i)] = row
+    if rng.random() < 0.3:  # one argument into two inputs of the SAME child
+        i = rng.randrange(n)
+        free = [s for s in range(3) if not slots[str(i)][s]]
+        if len(free) >= 2:
+            k = rng.randrange(3)
+            for s in free[:2]:
+                argslots[str(i)][s] = k
+            for j in range(n):  # ... and nowhere else, so that this child alone decides whether the node survives
+                if j != i:
+                    argslots[str(j)] = [None if a == k else a for a in argslots[str(j)]]
+    used = {j for sl in slots.values() for ups in sl for j in ups}
+    outs = [i for i in range(n) if i not in used] or [order[-1]]
+    outs += [i for i in range(n) if i not in outs and rng.random() < 0.25]
+    macro = [i for i in range(n) if rng.random() < 0.25]
+    ex = [i for i in range(n) if rng.random() < 0.4]
+    case = {"n": n, "order": order, "slots": slots, "argslots": argslots, "outs": outs, "host": "macro",
+            "macro": macro, "inner_exec": [i for i in macro if i not in ex and rng.random() < 0.4],
+            "exec": ex, "fails": [], "mode": "ctl", "choices": [rng.randint(0, 4) for _ in range(4 * n + 8)]}
+    u = rng.random()
+    pick = lambda: [[i, rng.choice("FFM")] for i in rng.sample(range(n), rng.choice([1, 1, 2]))]  # noqa: E731
+    if u < 0.35:
+        case["replace0"] = pick()
+    elif u < 0.6:
+        case["fails"] = [rng.randrange(n)]
+        case["rerun"] = {"exec2": [i for i in range(n) if rng.random() < 0.4],
+                         "choices2": [rng.randint(0, 4) for _ in range(4 * n + 8)],
+                         "replace": pick() if rng.random() < 0.7 else []}
+    for i, kind in case.get("replace0", []) + case.get("rerun", {}).get("replace", []):
+        # what stands at i afterwards (a macro wrapper or a plain function node) decides how its job is completed
+        if kind == "M" and i not in case["macro"]:
+            case["macro"] = sorted(case["macro"] + [i])
+    return case
+
+
 def corpus():
+    # macro host: argument ua into two inputs of the same child (its interface node must survive and feed both)
+    yield {"n": 2, "order": [0, 1], "slots": {"0": [[], [], []], "1": [[0], [], []]},
+           "argslots": {"0": [0, 0, None], "1": [None, 1, None]}, "outs": [1], "host": "macro", "macro": [],
+           "exec": [], "fails": [], "mode": "ctl", "choices": []}
+    # macro host: the first starting node is replaced before the run
+    yield {"n": 3, "order": [0, 1, 2], "slots": {"0": [[], [], []], "1": [[], [], []], "2": [[0], [1], []]},
+           "argslots": {"0": [None] * 3, "1": [None] * 3, "2": [None] * 3}, "outs": [2], "host": "macro", "macro": [],
+           "exec": [], "fails": [], "mode": "ctl", "choices": [], "replace0": [[0, "F"]]}
+    yield {"n": 3, "order": [0, 1, 2], "slots": {"0": [[], [], []], "1": [[], [], []], "2": [[0], [1], []]},
+           "argslots": {"0": [None] * 3, "1": [None] * 3, "2": [None] * 3}, "outs": [2], "host": "macro", "macro": [],
+           "exec": [], "fails": [], "mode": "ctl", "choices": [], "replace0": [[1, "F"]]}
     # stale received set: 0 -> 2 <- 1, run one: 0 raises, 1 completes; run two: 1 on an executor, completed last
     yield {"n": 3, "order": [0, 1, 2], "slots": {"0": [[], [], []], "1": [[], [], []], "2": [[0], [1], []]},
            "exec": [], "fails": [0], "mode": "ctl", "choices": [],
@@ -205,6 +330,9 @@ def _run_once(case, choices):
     if rr:
         for n in ns.values():
             n.use_cache = False  # every run re-executes every child (caching is C05's subject)
+            for inner in _kids(n).values():
+                inner.use_cache = False
+    _replace(case, wf, ns, case.get("replace0", []), bool(rr))
     res, seen = _one_run(case, wf, ns, choices, case["exec"], case.get("mode", "ctl"))
     if rr and not any(run for run, _f in res["flags"].values()) and not res["late_jobs"]:
         # the documented way on: clear the failure, remove its cause, run again
@@ -214,6 +342,8 @@ def _run_once(case, choices):
         wf.failed = False
         for n in ns.values():
             n.failed = False
+            for inner in _kids(n).values():
+                inner.failed = False
         # edits between the runs: a child is removed and a NEW node put in its place (same label, same data wiring)
         case2 = case_after_swaps(case)
         for i in rr.get("swap", []):
@@ -230,6 +360,7 @@ def _run_once(case, choices):
                     new.inputs[slot].connect(up)
             for down in outs:
                 down.connect(new.outputs.o)  # becomes the newest connection of that input
+        _replace(case, wf, ns, rr.get("replace", []), True)
         # a child run by hand between the two runs (its `ran` reaches the triggers downstream of it while
         # nothing is running; whatever that leaves behind must not leak into the next run)
         if rr.get("poke"):
@@ -247,6 +378,21 @@ def _run_once(case, choices):
         res["run2"] = res2
         seen = seen + seen2
     return res, seen
+
+
+def _replace(case, wf, ns, edits, nocache):
+    """`replace_child`: a NEW node (the same function; as a function node or as a macro wrapping it) takes the place,
+    the connections and the role of a child — the graph is the same graph, the property is demanded of it unchanged"""
+    from . import nodes
+
+    for i, kind in edits:
+        new = (nodes.macro_node if kind == "M" else nodes.term_node)(i, label=f"n{i}")
+        if nocache:
+            new.use_cache = False
+            for inner in _kids(new).values():
+                inner.use_cache = False
+        wf.replace_child(ns[i], new)
+        ns[i] = new
 
 
 def case_after_swaps(case):
@@ -323,7 +469,8 @@ def _one_run(case, wf, ns, choices, on_exec, mode):
 
     if case.get("macro"):
         Scheduler, Instrument = _nested_tools()
-    sched = Scheduler(choices, ident=lambda owner: owner.label[1:])
+    lm = _labmap(case, ns)
+    sched = Scheduler(choices, ident=lambda owner: str(lm.get(owner.label, owner.label[1:])))
     if case.get("macro"):
         sched.top = wf
         sched.stack = []
@@ -331,8 +478,8 @@ def _one_run(case, wf, ns, choices, on_exec, mode):
     for i in ns:
         ns[i].executor = exe if i in on_exec else None
     for i in case.get("inner_exec", []):
-        if i in case.get("macro", []):
-            ns[i].inner.executor = exe  # the function node INSIDE the macro is what goes to the executor
+        if i in case.get("macro", []) and "inner" in _kids(ns[i]):
+            ns[i].children["inner"].executor = exe  # the function node INSIDE the macro is what goes to the executor
     wiring = {}
 
     import pyiron_workflow.nodes.composite as comp
@@ -344,12 +491,12 @@ def _one_run(case, wf, ns, choices, on_exec, mode):
 
         def on_run(self_):
             if self_ is wf and not wiring:
-                wiring["starters"] = [int(n.label[1:]) for n in self_.starting_nodes]
+                wiring["starters"] = [lm.get(n.label, 99) for n in self_.starting_nodes]
                 wiring["down"] = {
-                    i: [int(c.owner.label[1:]) for c in ns[i].signals.output.ran.connections] for i in ns
+                    i: [lm.get(c.owner.label, 99) for c in ns[i].signals.output.ran.connections] for i in ns
                 }
                 wiring["acc"] = {
-                    i: sorted(int(c.owner.label[1:]) for c in ns[i].signals.input.accumulate_and_run.connections)
+                    i: sorted(lm.get(c.owner.label, 99) for c in ns[i].signals.input.accumulate_and_run.connections)
                     for i in ns
                 }
             return orig_on_run(self_)
@@ -365,8 +512,8 @@ def _one_run(case, wf, ns, choices, on_exec, mode):
             comp.Composite._on_run = orig_on_run
     late = len(sched.jobs)
     flags = {i: (bool(ns[i].running), bool(ns[i].failed)) for i in ns}
-    outs = {i: term_str(ns[i].outputs.o.value) for i in ns}
-    lab = lambda l: int(l[1:])  # noqa: E731
+    outs = {i: term_str(_outch(ns[i]).value) for i in ns}
+    lab = lambda l: lm.get(l, 99)  # noqa: E731
     res = {
         "outcome": outcome,
         "wiring": wiring,
@@ -484,11 +631,13 @@ def obs_lines(case, r):
         return obs_lines_fine(case, r)
     """the implementation's observations in the driver's format (without the variant tag)"""
     n = case["n"]
+    if case.get("host") == "macro":
+        n = host_edges(case)[0]
     end = "exited" if r["outcome"] in ("ok", "raised:FailedChildError") else (
         "aborted" if r["outcome"].startswith("raised:") else r["outcome"])
 
     def st(i):
-        run, failed = r["flags"][i]
+        run, failed = r["flags"].get(i, (False, False))
         if run:
             return "out"
         if failed:
@@ -502,10 +651,27 @@ def obs_lines(case, r):
         f"exec [{','.join(map(str, r['exec_log']))}]",
         f"done [{','.join(map(str, r['done_log']))}]",
         "st " + " ".join(f"{i}:{st(i)}" for i in range(n)),
-        "calls " + " ".join(f"{i}:{r['calls'].count(i) + (1 if r['flags'][i][0] and i not in r['calls'] else 0)}"
+        "calls " + " ".join(f"{i}:{_ncalls(case, r, i) + (1 if r['flags'].get(i, (0, 0))[0] and i not in r['calls'] else 0)}"
                             for i in range(n)),
-        "out " + " ".join(f"{i}:{r['outs'][i]}" for i in range(n)),
+        "out " + " ".join(f"{i}:{_host_subst(case, r['outs'].get(i, 'absent'))}" for i in range(n)),
     ]
+
+
+def _ncalls(case, r, i):
+    # an interface node of a hosting macro is a child like any other; its 'function' leaves no trace in CALL_LOG
+    return r["calls"].count(i) if i < case["n"] else r["exec_log"].count(i)
+
+
+def _host_subst(case, text):
+    """macro host, lock-step only: the value of an argument whose interface node survives is that node's output (a source
+    node of the model: f_j(d,d,d)); an argument linked straight into one input is that input's own value (the model's d).
+    What the values really are is the oracle's business (reference())"""
+    if case.get("host") != "macro":
+        return text
+    idx, _uses = ui_index(case)
+    for k, v in enumerate(case.get("argvals", ["A0", "A1", "A2"])):
+        text = text.replace(repr(v), f"f{idx[k]}(d,d,d)" if k in idx else "d")
+    return text
 
 
 def run_impl(case):
@@ -560,6 +726,9 @@ def model_input(case, impl):
 
 def _model_input_one(case, r):
     n = case["n"]
+    if case.get("host") == "macro":
+        n, hs = host_edges(case)
+        case = {**case, "n": n, "slots": hs}
     lines = [f"n {n}"]
     for i in range(n):
         for ups in case["slots"][str(i)]:
@@ -580,6 +749,9 @@ def _model_input_one(case, r):
     if r.get("run2"):
         r2 = r["run2"]
         c2 = r2.get("case2", case)
+        if c2.get("host") == "macro":
+            n2, hs2 = host_edges(c2)
+            c2 = {**c2, "n": n2, "slots": hs2}
         lines.append(f"n {n}")  # the graph as it is for the second run (edits between the runs)
         for i in range(n):
             for ups in c2["slots"][str(i)]:
@@ -591,7 +763,8 @@ def _model_input_one(case, r):
         lines.append("fails")
         lines.append("exec " + " ".join(map(str, case["rerun"]["exec2"])))
         lines.append("rank " + " ".join(map(str, _rank(c2))))
-        lines.append("fresh " + " ".join(map(str, case["rerun"].get("swap", []))))
+        lines.append("fresh " + " ".join(map(str, list(case["rerun"].get("swap", []))
+                                         + [i for i, _k in case["rerun"].get("replace", [])])))
         lines.append("sched " + " ".join(r2["trace"]))
         lines.append("rerun")
     return lines
@@ -670,8 +843,17 @@ def check_run(case, r):
     pos = {}
     for k, (kind, i) in enumerate(r["events"]):
         pos.setdefault((kind, i), k)
+    order_slots = host_edges(case)[1] if case.get("host") == "macro" else case["slots"]
+    if case.get("host") == "macro":
+        # the interface node of an argument used by two or more connections is a child like any other: it runs once
+        for k, j in ui_index(case)[0].items():
+            c = r["exec_log"].count(j)
+            if c != 1:
+                fails.append({"clause": "not-exactly-once",
+                              "detail": f"interface node of argument {k} executed {c} times; exec_log={r['exec_log']}",
+                              "signature": sig("once")})
     for i in range(n):
-        for ups in case["slots"][str(i)]:
+        for ups in order_slots[str(i)]:
             for j in ups:
                 if ("start", i) in pos and not ((fin_ev, j) in pos and pos[(fin_ev, j)] < pos[("start", i)]):
                     fails.append({"clause": "started-before-upstream-finished",
@@ -688,6 +870,11 @@ def check_run(case, r):
     if not fine and r["ret"] != r["open_outputs"]:
         fails.append({"clause": "return-value-differs-from-outputs", "detail": f"{r['ret']} vs {r['open_outputs']}",
                       "signature": sig("return")})
+    if case.get("host") == "macro":
+        want = {f"o{i}": ref[i] for i in case["outs"]}
+        if r["ret"] != want:
+            fails.append({"clause": "macro-output-differs-from-plain-composition", "detail": f"{r['ret']} vs {want}",
+                          "signature": sig("value")})
     return fails
 
 
@@ -713,7 +900,7 @@ def shrink_candidates(case):
     # drop a node that nobody depends on
     used = {j for sl in case["slots"].values() for ups in sl for j in ups}
     for i in range(n - 1, -1, -1):
-        if i not in used and n > 2:
+        if i not in used and n > 2 and case.get("host") != "macro":
             # renumber: keep ids (term functions are per id) but remove the node
             order = [x for x in case["order"] if x != i]
             if i == n - 1:
